@@ -82,6 +82,7 @@ func one(h *harness.H, layer string, c int, osfs bool, mu *sync.Mutex, unexpecte
 	}
 	defer cleanup()
 	e := cskit.NewExec(fs, s)
+	e.AutoReads = true // automatic-chunking walks (repaired in repo by the C10 fix commits)
 	h.Eval()
 	if err := e.Setup(); err != nil {
 		h.Inconclusive("setup-error")
